@@ -46,6 +46,7 @@ def builtin_or_template(motif):
     as_list = motif.get("etype") == "list"
 
     drop_loops = bool(motif.get("drop_loops"))
+    buf = []  # reuse_buffer: the callback fills and returns one and the same list object on every call
 
     def template(vs):
         es = [[vs[i], vs[j]] if as_list else (vs[i], vs[j]) for i, j in edges
@@ -56,6 +57,10 @@ def builtin_or_template(motif):
             return es[0]
         if ret == "tuple":
             return tuple(es)
+        if motif.get("reuse_buffer"):
+            del buf[:]
+            buf.extend(es)
+            return buf
         return es
     return template
 
@@ -101,6 +106,8 @@ def motif_shape(draw, custom, allow_size1=True):
             extra["return_argument"] = True
     else:
         ret = draw(st.sampled_from(["list", "tuple"]))
+        if ret == "list" and draw(st.integers(0, 3)) == 0:
+            extra["reuse_buffer"] = True
     return {**extra, "kind": "template", "m": m, "edges": edges, "ret": ret,
             # edges written as lists instead of tuples: only the custom generator (pure edge-list output)
             "etype": draw(st.sampled_from(["tuple", "tuple", "list"])) if custom else "tuple"}
@@ -178,6 +185,8 @@ def gcm_case(draw, tier, algos=("fast", "network", "motifs"), max_leaf_stubs=Non
     if draw(st.integers(0, 3)) == 0:
         # the same generator object was already used for an earlier graph
         c["prior"] = draw(st.sampled_from(["same", "reversed", "doubled"]))
+    if algo == "motifs":
+        c["indices_type"] = draw(st.sampled_from(["list", "list", "tuple", "range"]))
     if draw(st.integers(0, 3)) == 0:
         # the caller re-uses its parameter dictionary for something else after the generator was constructed
         c["params_reassigned"] = True
@@ -228,7 +237,13 @@ def build(case, journal):
                 return lambda: iter(ret)  # a naming callback may yield its names (one-shot iterable)
             return lambda: ret
         params[GN.EDGE_NAMES] = [namer(mo) for mo in case["motifs"]]
-        params[GN.MOTIF_INDICES] = [list(mo["cols"]) for mo in case["motifs"]]
+        # an entry of motif_indices is a sequence of column numbers: a list, or any other sequence (tuple, range)
+        def indices(cols):
+            t = case.get("indices_type", "list")
+            if t == "range" and len(cols) >= 1 and list(cols) == list(range(cols[0], cols[0] + len(cols))):
+                return range(cols[0], cols[0] + len(cols))
+            return tuple(cols) if t in ("tuple", "range") else list(cols)
+        params[GN.MOTIF_INDICES] = [indices(mo["cols"]) for mo in case["motifs"]]
     else:
         params[GN.EDGE_NAMES] = [mo["names"] for mo in case["motifs"]]
     typ = {"fast": GCMAlgorithmTypes.FAST, "network": GCMAlgorithmTypes.NETWORK,
@@ -309,6 +324,8 @@ def classes_of(case):
         cl.add("generator_reused")
     if case.get("params_reassigned"):
         cl.add("params_dict_reassigned_after_construction")
+    if case.get("indices_type", "list") != "list":
+        cl.add("motif_indices_as_" + case["indices_type"])
     cl.add("algo_" + case["algo"])
     cl.add("path_" + case["path"])
     for m in case["motifs"]:
@@ -329,6 +346,8 @@ def classes_of(case):
             cl.add("variable_edge_count_callback")
         if m.get("return_argument"):
             cl.add("bare_edge_is_the_argument_list")
+        if m.get("reuse_buffer"):
+            cl.add("callback_returns_one_reused_list")
         if m.get("names_iter"):
             cl.add("names_from_one_shot_iterator")
         if isinstance(m["names"], (list, tuple)) and len(set(m["names"])) > 1:
